@@ -185,7 +185,7 @@ struct Cell {
 static vector<vector<Cell>> tokenize_dump(const string& text, bool color_allowed) {
   vector<vector<Cell>> lines;
   vector<Cell> cur;
-  bool red = false, inv = false;
+  bool red = false, inv = false, bold = false, fg = false;
   for (size_t i = 0; i < text.size(); i++) {
     char ch = text[i];
     if (ch == '\033') {
@@ -193,10 +193,34 @@ static vector<vector<Cell>> tokenize_dump(const string& text, bool color_allowed
       size_t m = text.find('m', i);
       VCHECK(m != string::npos && text[i + 1] == '[', "dump-escape-malformed", "unterminated escape sequence");
       string params = text.substr(i + 2, m - i - 2);
-      if (params == "1;31") red = true;
-      else if (params == "7") inv = true;
-      else if (params == "0") red = inv = false;
-      else VFAIL("dump-escape-malformed", "unexpected escape parameters ", params);
+      // any SGR sequence (ECMA-48): a list of numeric parameters, processed in order. How a dumper spells "highlighted" (bold red here,
+      // parameters combined or not, one sequence per cell or per run) is its business: `red` = a foreground colour or bold is active,
+      // `inv` = inverse video is active
+      {
+        std::vector<int> codes;
+        size_t q = 0;
+        while (q <= params.size()) {
+          size_t e = params.find(';', q);
+          if (e == string::npos) e = params.size();
+          string one = params.substr(q, e - q);
+          VCHECK(one.find_first_not_of("0123456789") == string::npos && one.size() <= 3, "dump-escape-malformed", "unexpected escape parameters ", params);
+          codes.push_back(one.empty() ? 0 : atoi(one.c_str()));
+          q = e + 1;
+        }
+        for (size_t k = 0; k < codes.size(); k++) {
+          int cd = codes[k];
+          if (cd == 0) bold = fg = inv = false;
+          else if (cd == 1) bold = true;
+          else if (cd == 22) bold = false;
+          else if (cd == 7) inv = true;
+          else if (cd == 27) inv = false;
+          else if ((cd >= 30 && cd <= 37) || (cd >= 90 && cd <= 97)) fg = true;
+          else if (cd == 39) fg = false;
+          else if (cd == 38 && k + 1 < codes.size()) { fg = true; k += (codes[k + 1] == 5) ? 2 : 4; }
+          else VFAIL("dump-escape-malformed", "unexpected escape parameters ", params);
+        }
+        red = bold || fg;
+      }
       i = m;
     } else if (ch == '\n') {
       VCHECK(!red && !inv, "dump-escape-unbalanced", "attributes still active at the end of a line");
@@ -226,10 +250,21 @@ static string cells_text(const vector<Cell>& l, size_t from, size_t n) {
   for (size_t k = from; k < from + n && k < l.size(); k++) r += l[k].ch;
   return r;
 }
+// the highlight of a cell is that of its visible characters: whether the blanks that separate or pad the cells are inside the
+// highlighted run is not something the statement (or a reader of the dump) can tell
 static bool uniform_red(const vector<Cell>& l, size_t from, size_t n, bool& red) {
-  red = l[from].red;
-  for (size_t k = from; k < from + n; k++)
-    if (l[k].red != red) return false;
+  bool any = false;
+  red = false;
+  for (size_t k = from; k < from + n; k++) {
+    if (l[k].ch == ' ') continue;
+    if (!any) {
+      red = l[k].red;
+      any = true;
+    } else if (l[k].red != red) {
+      return false;
+    }
+  }
+  if (!any) red = l[from].red;
   return true;
 }
 
@@ -351,8 +386,10 @@ static void check_dump_text(const DumpInput& in, const string& text) {
       present = (static_cast<u128>(d.addr) == la);
     }
     if (omit) {
-      VCHECK(!present, "dump-collapse-kept-zero-line", "all-zero interior line at ", (uint64_t)la, " was printed despite COLLAPSE_ZERO_LINES");
-      continue;
+      // "zero-line collapsing omits only all-zero interior lines": such a line MAY be omitted; a dumper that keeps some of them (the
+      // first of each run, like hexdump does) omits only what it may. A kept line is decoded and compared like every other line.
+      if (!present) continue;
+      ctx().cls("dump:collapse keeps an all-zero interior line");
     }
     if (!present) {
       const char* why = (flags & F::COLLAPSE) ? (interior ? (diff ? "dump-collapse-omitted-nonzero-line:prev" : "dump-collapse-omitted-nonzero-line") : "dump-collapse-omitted-edge-line") : "dump-line-missing";
@@ -618,11 +655,24 @@ static void check_big_lines(const BigDump& b, const vector<vector<Cell>>& lines,
   };
   size_t auto_width = 2;
   while (auto_width < digits_needed(last_line)) auto_width *= 2;
-  for (size_t li = 0; li < addrs.size(); li++) {
+  size_t pl = 0; // index into the printed lines
+  for (size_t li = 0; li < addrs.size(); li++, pl++) {
     u128 la = addrs[li];
     string where = big_where(b, la);
-    VCHECK(li < lines.size(), cat("dump-big:line-missing:", where), "the dump of ", b.total, " bytes at ", b.start, " has no line for address ", (uint64_t)la, " (", lines.size(), " lines printed, ", addrs.size(), " expected)");
-    DumpLine d = decode_line(lines[li], flags);
+    VCHECK(pl < lines.size(), cat("dump-big:line-missing:", where), "the dump of ", b.total, " bytes at ", b.start, " has no line for address ", (uint64_t)la, " (", lines.size(), " lines printed, ", addrs.size(), " expected)");
+    DumpLine d = decode_line(lines[pl], flags);
+    // with COLLAPSE_ZERO_LINES an all-zero interior line may be omitted, it need not be: lines the dumper kept between two expected
+    // ones must be in place, in order and show zeros only (at most 64 of them - nobody keeps gigabytes of zero lines)
+    for (size_t kept = 0; (flags & F::COLLAPSE) && static_cast<u128>(d.addr) != la && kept < 64; kept++) {
+      u128 ka = d.addr;
+      bool ok = (ka % 16 == 0) && ka > (li ? addrs[li - 1] : (static_cast<u128>(b.start) & ~static_cast<u128>(15))) && ka < la;
+      for (int k = 0; ok && k < 16; k++) ok = (d.hexv[k] == 0);
+      if (!ok) break;
+      ctx().cls("bigdump:collapse keeps an all-zero interior line");
+      pl++;
+      VCHECK(pl < lines.size(), cat("dump-big:line-missing:", where), "the dump of ", b.total, " bytes at ", b.start, " has no line for address ", (uint64_t)la);
+      d = decode_line(lines[pl], flags);
+    }
     VCHECK(static_cast<u128>(d.addr) == la, cat("dump-big:line-address:", where), "line ", li, " of the dump of ", b.total, " bytes at ", b.start, " is for address ", d.addr, ", expected ", (uint64_t)la);
     VCHECK(d.addr_digits == (forced ? std::max(forced, digits_needed(la)) : auto_width), "dump-big:address-width", "address ", (uint64_t)la, " printed with ", d.addr_digits, " digits");
     for (int k = 0; k < 16; k++) {
@@ -640,7 +690,7 @@ static void check_big_lines(const BigDump& b, const vector<vector<Cell>>& lines,
       }
     }
   }
-  VCHECK(lines.size() == addrs.size(), "dump-big:extra-lines", lines.size() - addrs.size(), " unexpected line(s) in the dump of ", b.total, " bytes at ", b.start, "; first: ", cells_text(lines[addrs.size()], 0, 30));
+  VCHECK(lines.size() == pl, "dump-big:extra-lines", lines.size() - pl, " unexpected line(s) in the dump of ", b.total, " bytes at ", b.start, "; first: ", cells_text(lines[pl], 0, 30));
 }
 
 struct StopDump {};
